@@ -1,6 +1,7 @@
 //! C07: one call at a time per client connection; outcomes reported faithfully.
 use crate::core::*;
 use crate::fake::*;
+use crate::model::respell_text;
 use serde_json::{json, Value};
 use std::sync::atomic::{AtomicUsize, Ordering};
 use std::sync::{Arc, Mutex, RwLock};
@@ -42,18 +43,31 @@ fn mapping(ctx: &Ctx) {
         replies.push((json!({"error": n, "parameters": {"k": [1, 2], "parameter": "p"}}), "custom".into()));
         replies.push((json!({ "error": n }), "custom".into()));
     }
-    for (reply, want) in &replies {
+    // every reply also in two other spellings of the same JSON value (member order, blanks and
+    // line ends between tokens, \\u escapes)
+    let mut sp_rng = Rng::lane(ctx.seed, 7700);
+    let spelled: Vec<(Value, String, Value)> = replies
+        .iter()
+        .flat_map(|(r, w)| {
+            let mut v = vec![(r.clone(), w.clone(), r.clone())];
+            for _ in 0..2 {
+                v.push((r.clone(), w.clone(), json!({"__raw_text": respell_text(r, &mut sp_rng)})));
+            }
+            v
+        })
+        .collect();
+    for (reply, want, wire) in &spelled {
         let (conn, srv_end) = pair_connection();
-        let r2 = reply.clone();
+        let r2 = wire.clone();
         let mut fs = spawn_fake(srv_end, move |_| vec![r2.clone()], 0);
         let res = MC::new(conn.clone(), "a.b.C", json!({"q": 1})).call();
         // connection must be usable again after the final reply
         let again = MC::new(conn.clone(), "a.b.D", json!({})).call();
         drop(conn);
         fs.join();
-        ctx.case(Some(hash_of(&("mapping", reply.to_string()))));
+        ctx.case(Some(hash_of(&("mapping", reply.to_string(), wire.to_string()))));
         ctx.count("reply_objects_mapped", 1);
-        let wit = |m: String| json!({"engine": "c07-mapping", "reply": reply, "client_result": format!("{:?}", res.as_ref().map_err(|e| e.kind().clone())), "message": m});
+        let wit = |m: String| json!({"engine": "c07-mapping", "reply": reply, "as_written": wire.get("__raw_text").cloned().unwrap_or(Value::Null), "client_result": format!("{:?}", res.as_ref().map_err(|e| e.kind().clone())), "message": m});
         let has_err = reply.get("error").map(|e| !e.is_null()).unwrap_or(false);
         match (&res, has_err) {
             (Ok(v), false) => {
